@@ -40,7 +40,7 @@ def main():
             sys.exit(2)
         head = sh('git', '-C', '/repo', 'rev-parse', '--short', 'HEAD').stdout.strip()
         results = {}
-        env = dict(os.environ, MPIRE_REPO=wt, VERIF_OUT=out)
+        env = dict(os.environ, MPIRE_REPO=wt, VERIF_OUT=out, VERIF_CASE_WALL=os.environ.get('VERIF_CASE_WALL', '30'))
         for p in props:
             r = sh(os.path.join(ROOT, 'check'), p, '--tier', 'quick', env=env, cwd=ROOT)
             lines = [l for l in r.stdout.splitlines() if l.startswith('VIOLATION')]
